@@ -387,3 +387,39 @@ def pattern(it: Item, v: Variant, binders: Optional[List[str]] = None, path: str
     if binders is None:
         return p + " { .. }"
     return p + " { %s }" % ", ".join("%s: %s" % (f.name, b) for f, b in zip(v.fields, binders))
+
+
+# ---------------------------------------------------------------- hostile scopes
+# Look-alikes of prelude names, declared NEXT to the enum (they shadow the prelude there, so generated code that names one of them
+# without an absolute path picks up the look-alike).  Private on purpose: `pub use self::shadow::*` re-exports only the enum and the
+# types the derives generate.
+HOSTILE = {
+    "Default": """trait Default { fn default() -> Self; }
+impl Default for u8 { fn default() -> u8 { 101 } }
+impl Default for i32 { fn default() -> i32 { 102 } }
+impl Default for bool { fn default() -> bool { true } }
+impl Default for usize { fn default() -> usize { 103 } }
+impl Default for String { fn default() -> String { String::from("hostile") } }""",
+    "From": """trait From<T> { fn from(t: T) -> Self; }
+impl<'q> From<&'q str> for String { fn from(_: &'q str) -> String { ::std::string::ToString::to_string("hostile") } }
+impl<'q> From<&'q str> for Wrap { fn from(_: &'q str) -> Wrap { Wrap(::std::string::ToString::to_string("hostile")) } }""",
+    "Into": """trait Into<T> { fn into(self) -> T; }
+impl<'q> Into<String> for &'q str { fn into(self) -> String { String::from("hostile") } }""",
+    "Result": "type Result<T> = ::core::result::Result<T, ()>;",
+    "Option": "struct Option;",
+    "Some": "enum HostileOpt { Some(u8), None }\nuse self::HostileOpt::*;",
+    "Ok": "enum HostileRes { Ok(u8), Err(u8) }\nuse self::HostileRes::*;",
+    "Iterator": "trait Iterator {}\ntrait DoubleEndedIterator {}\ntrait ExactSizeIterator {}",
+    "Clone": "trait Clone {}\ntrait Copy {}\ntrait PartialEq {}\ntrait Eq {}",
+    "AsRef": "trait AsRef<T: ?Sized> {}\ntrait TryFrom<T> {}\ntrait FromStr {}",
+    "usize": "#[allow(non_camel_case_types)] type usize = u8;",
+    "str": "#[allow(non_camel_case_types)] type str = [u8];",
+    "i64": "#[allow(non_camel_case_types)] type i64 = i32;\n#[allow(non_camel_case_types)] type bool = u8;",
+    "Send": "trait Send {}\ntrait Sync {}\ntrait Sized2 {}",
+    "PhantomData": "struct PhantomData;\nmod marker {}\nmod fmt {}\nmod iter {}\nmod option {}\nmod result {}\nmod convert {}\nmod default {}",
+}
+
+
+def hostile_wrap(item_src: str, names) -> str:
+    body = "\n".join(HOSTILE[n] for n in names)
+    return ("pub use self::shadow::*;\npub mod shadow {\n#![allow(unused_imports, dead_code, non_snake_case)]\nuse super::*;\n%s\n%s\n}" % (body, item_src))
